@@ -218,9 +218,15 @@ def standard_flow(res, hx, corr, n, signature, describe, rule, nontrivial, key, 
         bad = [(c, code, step) for (c, code, step) in bad if relevant(c, code, step)]
     suspects = [(c, code, step) for (c, code, step) in bad if code >= 2]
     # what falls under a listed finding's signature is reported as that finding; it needs no slow re-run
+    # ... unless the implementation also departs from the model on that history: a listed finding describes what the unchanged
+    # code does, and the model reproduces that; a history on which the two differ shows something else
     known_sigs = {f["signature"] for f in core.known_findings(res.prop) if f.get("signature")}
-    listed = [(c, code, step) for (c, code, step) in suspects if code >= 3 and sig(c, step, code) in known_sigs]
-    suspects = [x for x in suspects if not (x[1] >= 3 and sig(x[0], x[2], x[1]) in known_sigs)]
+    differing = {key(c) for (c, code, step) in suspects if code == 2}
+
+    def is_listed(c, code, step):
+        return code >= 3 and sig(c, step, code) in known_sigs and key(c) not in differing
+    listed = [x for x in suspects if is_listed(*x)]
+    suspects = [x for x in suspects if not is_listed(*x)]
     if deterministic:
         confirmed = suspects          # nothing timing-dependent in this harness: a re-run would repeat the same steps
     else:
@@ -233,11 +239,12 @@ def standard_flow(res, hx, corr, n, signature, describe, rule, nontrivial, key, 
     def triage(found):
         """returns (violations, correspondence_breaks)"""
         vio, corr_breaks = [], []
+        differs = differing | {key(c) for (c, code, step) in found if code == 2}
         for c, code, step in found:
             if code >= 3:
                 sg = sig(c, step, code)
                 kf = [f for f in core.known_findings(res.prop) if f.get("signature") == sg] if sg else []
-                if kf:
+                if kf and key(c) not in differs:
                     line = "%s (%s)" % (kf[0]["what"], kf[0]["id"])
                     if line not in res.known:
                         res.known.append(line)
